@@ -68,6 +68,25 @@ GUARDS = [
     ("no vjp rule: linalg.qr", "lambda anp, x: anp.linalg.qr(x)[0]", (2, 2), "rev"),
     ("no vjp rule: take", "lambda anp, x: anp.take(x, [0, 1])", (3,), "rev"),
     ("no vjp rule: nansum", "lambda anp, x: anp.nansum(x)", (3,), "rev"),
+    # a traced value must not be convertible to a plain Python number (the trace would be lost silently)
+    ("float(traced)", "lambda anp, x: x * float(x)", (), "rev"),
+    ("float(traced) fwd", "lambda anp, x: x * float(x)", (), "fwd"),
+    ("int(traced)", "lambda anp, x: x * int(x)", (), "rev"),
+    ("complex(traced)", "lambda anp, x: x * complex(x).real", (), "rev"),
+    ("math.exp(traced)", "lambda anp, x: x * __import__('math').exp(x)", (), "rev"),
+    ("math.sqrt(traced) fwd", "lambda anp, x: x * __import__('math').sqrt(x)", (), "fwd"),
+    ("numpy.float64(traced)", "lambda anp, x: x * __import__('numpy').float64(x)", (), "rev"),
+    ("'%f' % traced", "lambda anp, x: x * len('%f' % x)", (), "rev"),
+    ("operator.index(traced)", "lambda anp, x: x * __import__('operator').index(x)", (), "rev"),
+    ("float(traced 1-element array)", "lambda anp, x: x * float(x[0])", (1,), "rev"),
+    # a value that varies with a positional argument for which no rule is registered
+    ("clip: traced lower bound", "lambda anp, x: anp.clip(__import__('numpy').array([0.5, 2.0, 3.0]), x, 2.5)", (), "rev"),
+    ("clip: traced upper bound", "lambda anp, x: anp.clip(__import__('numpy').array([0.5, 2.0, 3.0]), 0.0, x)", (), "rev"),
+    ("clip: traced lower bound fwd", "lambda anp, x: anp.clip(__import__('numpy').array([0.5, 2.0, 3.0]), x, 2.5)", (), "fwd"),
+    ("repeat: traced repeats", "lambda anp, x: anp.repeat(__import__('numpy').array([1.0, 2.0]), x)", (), "rev"),
+    ("linspace: traced num", "lambda anp, x: anp.linspace(0.0, 1.0, x)", (), "rev"),
+    ("full_like: traced fill", "lambda anp, x: anp.full_like(__import__('numpy').ones(3), x)", (), "rev"),
+    ("copysign", "lambda anp, x: x * anp.copysign(x, -1.0)", (3,), "rev"),
 ]
 
 
